@@ -98,7 +98,6 @@ class StabNoise(Harness):
         spec["p"] = sym_p(S)
         if self.start == "lossy":
             p2 = sym_p(S, "p2")
-            S.assume(p2 <= 0.9)
         return spec
 
     def body(self, S, spec):
@@ -205,7 +204,14 @@ class CompileNoise(Harness):
         err.noise_parameters["After gate"] = bool(self.after)
         noise = err if self.noise == "pauli" else nm.NoNoise()
         circuit = CircuitDAG(n_emitter=1, n_photon=1, n_classical=0)
-        if self.gate == "H":
+        if self.noise == "pair":
+            # different noise on control and target with independent placements
+            nc = nm.PauliError(self.pauli)
+            nc.noise_parameters["After gate"] = bool(self.after)
+            nt = nm.PauliError(self.pauli_t)
+            nt.noise_parameters["After gate"] = bool(self.after_t)
+            circuit.add(ops.CNOT(control=0, control_type="e", target=0, target_type="p", noise=[nc, nt]))
+        elif self.gate == "H":
             circuit.add(ops.Hadamard(register=0, reg_type="e", noise=noise))
         else:
             circuit.add(ops.CNOT(control=0, control_type="e", target=0, target_type="p", noise=[noise, nm.NoNoise()] if self.noise == "pauli" else nm.NoNoise()))
@@ -233,12 +239,24 @@ class CompileNoise(Harness):
             out = comp.compile(circuit, initial_state=init)
         seq = []
         gate = ("H", e) if self.gate == "H" else ("CNOT", e, ph)
-        noisy = self.switch and self.noise == "pauli" and self.pauli != "I"
-        if noisy and not self.after:
-            seq.append((self.pauli, e))
-        seq.append(gate)
-        if noisy and self.after:
-            seq.append((self.pauli, e))
+        if self.noise == "pair":
+            on = bool(self.switch)
+            if on and not self.after:
+                seq.append((self.pauli, e))
+            if on and not self.after_t:
+                seq.append((self.pauli_t, ph))
+            seq.append(gate)
+            if on and self.after:
+                seq.append((self.pauli, e))
+            if on and self.after_t:
+                seq.append((self.pauli_t, ph))
+        else:
+            noisy = self.switch and self.noise == "pauli" and self.pauli != "I"
+            if noisy and not self.after:
+                seq.append((self.pauli, e))
+            seq.append(gate)
+            if noisy and self.after:
+                seq.append((self.pauli, e))
         if self.backend == "s":
             rep = out.rep_data
             t = rep.mixture[0][1] if hasattr(rep, "mixture") else rep.data
@@ -280,5 +298,8 @@ def plan(tier):
                 for after in (0, 1):
                     jobs.append((CompileNoise(backend=backend, gate=gate, pauli=pauli, after=after, noise="pauli", switch=1), {}))
             jobs.append((CompileNoise(backend=backend, gate=gate, pauli="X", after=1, noise="pauli", switch=0), {}))
+            if gate == "CNOT":
+                for after, after_t in ((0, 0), (1, 1), (1, 0), (0, 1)):
+                    jobs.append((CompileNoise(backend=backend, gate=gate, pauli="X", after=after, pauli_t="Z", after_t=after_t, noise="pair", switch=1), {}))
             jobs.append((CompileNoise(backend=backend, gate=gate, pauli="X", after=1, noise="none", switch=1), {}))
     return jobs
